@@ -128,6 +128,19 @@ pub fn iv_reload_groups(g: &mut Gen) {
         lines.push(format!("iv Y push {}", MAXU)); lines.push("iv Y ser".to_string());
         g.group(lines);
     }
+    // vectors built by EVERY public route (`From<Vec<T>>` for each item type, `FromIterator`, `Extend`), at lengths around
+    // the number of items per word, written, sized and loaded back with trailing data
+    for ty in ["u8", "u16", "u32", "u64", "usize", "iter64"] {
+        let top: u64 = match ty { "u8" => 255, "u16" => 65535, "u32" => (1u64 << 32) - 1, _ => MAXU };
+        let mut lines = Vec::new();
+        for n in [0usize, 1, 2, 3, 4, 5, 7, 8, 9, 15, 16, 17, 33] {
+            let items: Vec<u64> = (0..n).map(|i| if i % 3 == 0 { top } else { g.rng.next() & top }).collect();
+            lines.push(format!("iv V from_vec {} {}", ty, ws(&items)).trim_end().to_string());
+            lines.push("iv V ser".to_string()); lines.push("ser sizes V".to_string()); lines.push("ser reload V Y extra=1".to_string());
+            lines.push("iv V eq Y".to_string()); lines.push("iv Y items".to_string());
+        }
+        g.group(lines);
+    }
 }
 
 pub fn c06(g: &mut Gen) {
@@ -459,6 +472,14 @@ pub fn c19(g: &mut Gen) {
         lines.push(format!("wm W ref {}", ws(&wmv)));
         lines.push("wm W items".to_string());
         for v in 0..10u64 { lines.push(format!("wm W rank {} {}", m / 2, v)); lines.push(format!("wm W select 0 {}", v)); }
+        // … and the same files as PRESENT optional structures (length prefix = the size in the file, which is smaller than the
+        // loaded value once `load` has rebuilt the supports), and as absent ones
+        let dsp = doc_sparse(n, &vals, w);
+        lines.push(format!("ser load optsp cut=- x=ok : {} {} 4242", dsp.len(), ws(&dsp)));
+        let dwm = doc_wm(&wmv);
+        lines.push(format!("ser load optwm cut=- x=ok : {} {} 4242", dwm.len(), ws(&dwm)));
+        lines.push("ser load optsp cut=- x=ok : 0 4242".to_string()); lines.push("ser load optwm cut=- x=ok : 0 4242".to_string());
+        lines.push("ser load optrl cut=- x=ok : 0 4242".to_string());
         g.group(lines);
     }
     // skipping an optional structure moves the reader exactly past it, whatever it contains
@@ -577,6 +598,17 @@ pub fn c12(g: &mut Gen) {
 }
 
 pub fn c13(g: &mut Gen) {
+    // raw vectors whose bit length is 0, a multiple of 64, or one off: bits, `count_ones` and integers through the view
+    let mut lines = Vec::new();
+    for n in [0usize, 1, 63, 64, 65, 127, 128, 129, 192, 640, 641, 4096] {
+        for kind in [1usize, 2] {
+            let b = make_bits(g, n, kind);
+            let mut file = vec![77u64]; file.extend(doc_raw(&b)); file.push(78);
+            lines.push(format!("map rawbits 1 trunc=- x=ok : {}", ws(&file)));
+            lines.push(format!("map raw 1 trunc=- x=ok : {}", ws(&file)));
+        }
+    }
+    g.group(lines);
     // a file made of a concatenation of serialized structures; every mapped type at its structure's offset, at every other
     // offset inside (no expectation beyond agreement with the model), at every offset >= file length, and under truncation
     let nfiles = if g.thorough { 40 } else { 10 };
@@ -647,6 +679,21 @@ pub fn c20(g: &mut Gen) {
 
 pub fn c07(g: &mut Gen) {
     big_vec_reload(g);
+    // files produced by the WRITERS are documents too: empty, one item, exactly one buffer, closed / closed twice / dropped
+    let mut lines = Vec::new();
+    for w in [1u64, 7, 13, 32, 63, 64] {
+        for b in [0u64, 1, 64 / w + 1, 100] {
+            lines.push(format!("wr int {} {} : c", w, b)); lines.push(format!("wr int {} {} :", w, b)); lines.push(format!("wr int {} {} : c c", w, b));
+            lines.push(format!("wr int {} {} : p{} c", w, b, g.rng.word())); lines.push(format!("wr int {} {} : p{} p{}", w, b, g.rng.word(), g.rng.word()));
+        }
+    }
+    for b in [0u64, 64, 128, 1024] {
+        lines.push(format!("wr raw {} : c", b)); lines.push(format!("wr raw {} :", b));
+        // exactly one and exactly two rounded buffers of bits, closed and dropped
+        let per = std::cmp::max(64, (b + 63) / 64 * 64);
+        for k in [1u64, 2] { let calls: Vec<String> = (0..(per * k / 64)).map(|_| format!("i{},64", g.rng.word())).collect(); lines.push(format!("wr raw {} : {} c", b, calls.join(" "))); lines.push(format!("wr raw {} : {}", b, calls.join(" "))); }
+    }
+    g.group(lines);
     // direction 1: the bytes written for every structure decode, by the rules of the document alone, into the same content
     // (`doc` lines are evaluated by the Lean document decoder on the implementation's bytes)
     let sizes: Vec<usize> = if g.thorough { vec![0, 1, 63, 64, 65, 513, 4097] } else { vec![0, 1, 64, 65, 700] };
